@@ -6,8 +6,8 @@ CONSTANTS
   P2 = "parentId"
   MapOrder <- MapOrderDef
   TraceOrders <- TraceOrdersBig
-  ParentOrders <- ParentOrdersBig
-  Orders <- OrdersBig
+  ParentOrders <- ParentOrdersTwo
+  Orders <- OrdersQuick
   SeqPaths = {"msgp"}
   MapPaths = {"map"}
   PTypings = {"absent", "str", "empty", "nonstr"}
